@@ -91,6 +91,19 @@ def _worker(args):
                         errors.append((i, f"replay-fidelity probe: digests {digest} / {res.digest} / {r2.digest} / {r3.digest}"))
             except Exception:
                 errors.append((i, "replay-fidelity probe: " + traceback.format_exc()))
+        # one run in twenty: the same script once more in the same process, *without* the reset of the library's
+        # module- and class-level state that every run otherwise starts with - the second execution must hold too
+        if i % 20 == 3 and getattr(stats, "last_exec", None) is not None and not vs:
+            spec, _digest = stats.last_exec
+            try:
+                warm = dict(spec, warmup=1)
+                res2 = run_replay(mod, warm)
+                stats.probes["script_executed_twice_in_one_process"] += 1
+                for v in res2.violations:
+                    v.spec = dict(v.spec, warmup=1)
+                    viols.append((i, v.spec, v.to_json()))
+            except Exception:
+                errors.append((i, "second execution in the same process: " + traceback.format_exc()))
         if not stats.samples and getattr(stats, "last_exec", None) is not None:
             # guarantee at least one written-out case per batch, whatever the module's own sampling rule picked
             stats.samples.append({"note": "first execution of this worker", "spec": stats.last_exec[0]})
@@ -105,13 +118,21 @@ def run_replay(mod, spec):
     """Re-executes a recorded spec. `warmup: n` means: the same script has already run n times in this process
     (fresh objects each time) - the only way to reproduce, from a fresh interpreter, a defect that lives in
     process-global state of the library (a module-level cache keyed by the content of the world)."""
+    from . import rt as rtmod
+
     base = {k: v for k, v in spec.items() if k != "warmup"}
-    for _ in range(int(spec.get("warmup", 0) or 0)):
-        try:
-            mod.replay(json.loads(json.dumps(base)))
-        except Exception:  # noqa
-            pass
-    return mod.replay(json.loads(json.dumps(base)))
+    n = int(spec.get("warmup", 0) or 0)
+    try:
+        for j in range(n):
+            rtmod.KEEP_STATE = j > 0  # the first execution starts in a fresh library, the later ones inherit its state
+            try:
+                mod.replay(json.loads(json.dumps(base)))
+            except Exception:  # noqa
+                pass
+        rtmod.KEEP_STATE = n > 0
+        return mod.replay(json.loads(json.dumps(base)))
+    finally:
+        rtmod.KEEP_STATE = False
 
 
 def replay_file(prop, path):
